@@ -176,7 +176,7 @@ PROPS['C05'] = dict(
     technique='contract harnesses (Kani/CBMC) for the decision: symbolic waiting state + symbolic bounded queue, decision oracle from the statement, frame, must-fail twin; Verus contracts (unbounded) on the extracted waiting_into_* methods with a ghost call log for the execution',
     design_ref='DESIGN.md section 4, C05',
     explanation='handle_hold_tap (Kani bounded AND Verus unbounded): at most one of Tap/Hold/Timeout, never NoOp; Tap iff own release queued before the timeout elapsed; Timeout exactly when it elapses; early Hold on other press (press variant) / other press+release (release variant); queue and clock untouched. waiting_into_hold/_timeout: verif_calls == old.push(decision_call(w, w.hold / w.timeout_action, ..)) - exactly one call, the right action, coordinate and delay, waiting key consumed (for extra_waiting: exactly the idx-th removed); waiting_into_tap: that call first, then only the C09 repeats; drop_waiting: no call. do_action_hold_tap (FRAGMENT: the HoldTap arm of Layout::do_action): an ordinary press creates exactly one pending decision carrying this key\'s hold / tap / timeout actions, timeout (reduced by the queueing delay in quick mode), delay, ticks 0, in the primary slot if free else as one more concurrent one, arms the tap-repress window, and runs NO action; a re-press of the same key inside the window creates no decision and runs the tap action exactly once. tick_dispatch (FRAGMENT: the `match &mut self.waiting` expression of Layout::tick): with tick_wt as a deterministic stub (decide / ticked), exactly the method matching the decision runs on the primary slot - Hold -> hold action, Timeout -> timeout action, Tap -> tap action (+ chord repeats), NoOp -> dropped, None -> nothing and the key stays undecided - and nothing is dequeued while a key is undecided; with no undecided key the oldest queued event is dequeued iff no concurrent tap-hold is pending and the one-shot input pause has run out.',
-    verus=[dict(unit='waiting', only=['waiting_into_hold', 'waiting_into_tap', 'waiting_into_timeout', 'drop_waiting', 'do_action_hold_tap', 'do_action_prologue', 'tick_dispatch', 'update_coord', 'update', 'lemma_sigs_push']), dict(unit='holdtap', fallback=['c05_b_handle_hold_tap'], cex={'handle_hold_tap': ['c05_b_handle_hold_tap']})],
+    verus=[dict(unit='waiting', only=['waiting_into_hold', 'waiting_into_tap', 'waiting_into_timeout', 'drop_waiting', 'do_action_hold_tap', 'do_action_prologue', 'tick_dispatch', 'event_real', 'from', 'push_back_chv2', 'update_coord', 'update', 'lemma_sigs_push']), dict(unit='holdtap', fallback=['c05_b_handle_hold_tap'], cex={'handle_hold_tap': ['c05_b_handle_hold_tap']})],
     kani=[
         H('keyberon', 'layout', 'c05_b_handle_hold_tap', kind='bounded', bound='queue <= 4 events over 3 keys', functions=[L + 'WaitingState::handle_hold_tap']),
         H('keyberon', 'layout', 'c05_b_tick_wt_hold_tap', kind='bounded', bound='queue <= 4 events over 3 keys', functions=[L + 'WaitingState::tick_wt (HoldTap arm)']),
@@ -418,9 +418,10 @@ PROPS['C04'] = dict(
     explanation=('Unit layers. resolve_coord: *r == resolved(layers, src_keys, x, y, order, 0) under x < R, y < C, order names existing layers; State::{coord, keycode, get_layer, release}; CustomEvent::update; '
                  'set_default_layer; do_action_key_code_head / do_action_layer / do_action_default_layer: states\' == pushed(states, NormalKey{keycode, coord, flags 0} | LayerModifier{value, coord}), '
                  'one-shot logic told Other(coord) unless is_oneshot, base layer changed only by DefaultLayer and only to an existing layer.'),
-    verus=[dict(unit='layers')],
+    verus=[dict(unit='layers'), dict(unit='waiting', only=['event_real', 'from', 'push_back_chv2'])],
     kani=[],
     assumptions=[
+        'Layout::event (unit waiting, extracted as event_real): proved that while fewer than 32 events are pending an incoming event is appended with age 0 to the queue that feeds the state machine (the chords-v2 queue when configured) and nothing else happens - "No event is lost, duplicated or reordered while fewer than 32 events are pending"; the flood path (33rd event) is in the extracted text but excluded by the precondition, i.e. NOT verified',
         'NOT decided: which order is handed to resolve_coord (held layers newest first, base layer, optional layer 0): trans_resolution_layer_order / current_layer / active_held_layers are iterator chains with closures, outside Verus; Kani on a Layout instance was measured infeasible (DESIGN 2)',
         'NOT decided: Layout::dequeue Release arm (retain closure that mutates a captured CustomEvent), Layout::tick as a whole (one event per tick, FIFO), Layout::event, the rest of do_action (MultipleKeyCodes, multi, release-key/layer), Kanata::handle_keystate_changes (ordered, de-duplicated emission), the parser\'s layer table construction',
         'resolve_coord preconditions (coordinate inside the table, order names existing layers) are not established by a caller under contract; the function\'s own asserts use `<=` and would let an index equal to the length through (observation, see C02)',
